@@ -28,7 +28,7 @@ from .. import rot
 
 PROPERTY = "C20"
 LEVEL = "exploration"
-BUDGET = {"quick": 640, "thorough": 40000}
+BUDGET = {"quick": 640, "thorough": 15000}
 CHUNK = 4
 RUN_TIMEOUT_S = 1500
 MAX_DISCARD_FRACTION = 0.5
